@@ -59,6 +59,26 @@ func main() {
 			usage()
 		}
 		dumpCmd(os.Args[2], os.Args[3])
+	case "dumprepo":
+		if len(os.Args) < 4 {
+			usage()
+		}
+		co, err := loadRepoCorpus(os.Args[2])
+		if err != nil {
+			fatalf("%v", err)
+		}
+		rx := regexp.MustCompile(os.Args[3])
+		funcs := co.allFuncs()
+		var list []*FuncInfo
+		for _, fi := range funcs {
+			if rx.MatchString(fi.Name()) {
+				list = append(list, fi)
+			}
+		}
+		sort.Slice(list, func(i, j int) bool { return list[i].Name() < list[j].Name() })
+		for _, fi := range list {
+			fmt.Print(buildFuncIR(fi, funcs, co.Fset).Dump())
+		}
 	case "wire":
 		if len(os.Args) < 5 {
 			usage()
